@@ -15,7 +15,7 @@ from common import REPO, WORK
 SUFFIX = os.environ.get("VERIF_KANI_TARGET_SUFFIX", "")
 MIR_DIR = os.path.join(WORK, "mir" + SUFFIX)
 POOL_PROPS = {"C01", "C02", "C09", "C10", "C13", "C20"}
-MIR_PROPS = POOL_PROPS | {"C06", "C15", "C08", "C03"}
+MIR_PROPS = POOL_PROPS | {"C06", "C15", "C08", "C03", "C04", "C14", "C05"}
 
 
 def source_hash():
@@ -163,6 +163,89 @@ def run_property(pid, tier, seed, logdir):
             except (Unsupported, Unwind) as e:
                 obligations.append(dict(name=name, engine="mirsym", functions=[], bounds="", oracle="", stubs=[], tier=tier,
                                         verdict="inconclusive", reason=f"outside the encoder's subset: {e}", queries=0, solver_time_s=0, failed=[]))
+        return obligations
+    if pid in ("C04", "C14", "C05"):
+        from mirsym import props_dns, enums as _en
+        structs = _en.scan_structs(REPO)
+        codec_stubs = ["byte vectors, linked lists and iterators summarised as concrete-length sequences of symbolic octets (list in evidence)",
+                       "derived Clone = structural copy", "error-message formatting = constant text"]
+        jobs = []
+
+        def wrap(name, thunk, bounds, oracle):
+            def job():
+                t0 = time.time()
+                try:
+                    failed, ex, npaths, kinds = thunk()
+                    for f in failed:
+                        f["check"] = name
+                    return dict(name=name, engine="mirsym", functions=sorted(f.split("::")[-1] for f in ex.encoded_fns), bounds=bounds, oracle=oracle,
+                                stubs=codec_stubs + sorted(ex.used_summaries), tier=tier, verdict="fail" if failed else "pass", reason="", queries=ex.queries,
+                                solver_time_s=round(ex.solver_time, 2), failed=_dedup(failed), paths=npaths, path_kinds={str(k): v for k, v in kinds.items()},
+                                wall_s=round(time.time() - t0, 1))
+                except (Unsupported, Unwind) as e:
+                    return dict(name=name, engine="mirsym", functions=[], bounds=bounds, oracle=oracle, stubs=codec_stubs, tier=tier, verdict="inconclusive",
+                                reason=f"outside the encoder's subset: {e}", queries=0, solver_time_s=0, failed=[])
+            return (name, job)
+        if pid == "C05":
+            kinds = ["plain", "opt", "cookie0", "cookie7", "cookie8", "cookie24", "ede1", "answer_ptr", "ptr_self", "ptr_past_end", "count_lies"]
+            for k in kinds:
+                jobs.append(wrap("c05_dns_decode_encode_" + k, (lambda k=k: props_dns.decode_encode_obligation(prog, en, structs, k)),
+                                 "PktParser::get_dns on the DNS message skeleton '%s' (counts, label lengths, pointers, option lengths concrete; ids, flags, name octets, TTLs, OPT class/extended-rcode/version/flags, option payloads symbolic), then get_cookie / get_extended_dns_error on its EDNS options and DNSPkt::serialise of the decoded message" % k,
+                                 "Ok or Err from the decoder, and no panic (overflow, bounds, unwrap, assert) anywhere in decode, option access or re-encode"))
+
+            def cuts(k):
+                n = len(props_dns.skeleton(k))
+                allf, exs, paths, kinds_ = [], None, 0, {}
+                for cut in range(n):
+                    f, ex, np_, kd = props_dns.decode_encode_obligation(prog, en, structs, k, cut)
+                    allf += f
+                    paths += np_
+                    for kk, vv in kd.items():
+                        kinds_[kk] = kinds_.get(kk, 0) + vv
+                    if exs is None:
+                        exs = ex
+                    else:
+                        exs.queries += ex.queries
+                        exs.solver_time += ex.solver_time
+                        exs.encoded_fns |= ex.encoded_fns
+                        exs.used_summaries |= ex.used_summaries
+                return allf, exs, paths, kinds_
+            for k in (["opt", "answer_ptr"] if tier == "quick" else ["opt", "answer_ptr", "cookie8", "count_lies"]):
+                jobs.append(wrap("c05_dns_truncations_of_" + k, (lambda k=k: cuts(k)),
+                                 "every truncation point 0..len-1 of the skeleton '%s' (contents symbolic)" % k, "decoder returns Err or Ok, never panics"))
+        elif pid == "C04":
+            shapes = [(((200, 200, 200), (), ()), False, False), (((300,), (300,), (4,)), True, False), (((), (250, 250), (40,)), True, False),
+                      (((100,), (), ()), False, True), (((500,), (), ()), True, False)]
+            if tier == "thorough":
+                shapes += [(((120, 120, 120, 120, 120), (), ()), True, False), (((0, 0, 490), (1,), (2,)), True, False), (((255, 255), (255,), (255,)), False, False),
+                           (((600,), (600,), (600,)), True, False)]
+            for i, (shape, ed, sf) in enumerate(shapes):
+                jobs.append(wrap("c04_size_limit_shape%d" % i, (lambda shape=shape, ed=ed, sf=sf: props_dns.size_obligation(prog, en, structs, shape, ed, sf)),
+                                 "DNSPkt::serialise_with_size on a message with answer/authority/additional rdata lengths %s (root owner names, 3-octet question label), %s OPT record, size limit symbolic over 512..65535, ids/TTLs/types/rcode symbolic%s" % (shape, "with" if ed else "without", ", all header flags symbolic" if sf else ""),
+                                 "independent structural oracle: output length <= limit; whole records dropped from the end only; header counts = records present; TC set exactly when a record was dropped; length = header + question + kept records; id/flag octets"))
+        else:
+            L = lambda *x: tuple(x)  # noqa
+            layouts = [
+                (L(("x", 2)), [(0, L(("x", 2)), 4)], False, True),
+                (L(("a", 1), ("b", 2)), [(0, L(("b", 2)), 3), (1, L(("c", 1), ("b", 2)), 0), (2, L(), 2)], True, False),
+                (L(("a", 1), ("b", 1)), [(0, L(("a", 1), ("b", 1)), 1), (0, L(("d", 1), ("a", 1), ("b", 1)), 1)], False, False),
+                (L(), [(0, L(("p", 1)), 2), (0, L(("q", 1)), 2)], True, False),
+            ]
+            layouts += [
+                (L(("a", 1)), [(0, L(), 16400), (0, L(("n", 1), ("m", 1)), 1), (0, L(("n", 1), ("m", 1)), 1)], False, False),
+                (L(("a", 1)), [(0, L(), 16360), (0, L(("n", 1), ("m", 1)), 1), (0, L(("n", 1), ("m", 1)), 1), (0, L(("k", 1), ("m", 1)), 1)], False, False),
+            ]
+            if tier == "thorough":
+                layouts += [
+                    (L(("a", 1), ("b", 1), ("c", 1)), [(0, L(("b", 1), ("c", 1)), 2), (1, L(("c", 1)), 2), (2, L(("z", 1), ("a", 1), ("b", 1), ("c", 1)), 2)], True, False),
+                    (L(("a", 3)), [(0, L(("a", 3)), 300), (0, L(("b", 3)), 300), (1, L(("a", 3)), 0)], True, True),
+                    (L(("a", 1), ("b", 1)), [(0, L(("e", 1), ("b", 1)), 1), (0, L(("f", 1), ("b", 1)), 1), (0, L(("e", 1), ("b", 1)), 1)], False, False),
+                ]
+            for i, (ql, recs, ed, sf) in enumerate(layouts):
+                jobs.append(wrap("c14_roundtrip_layout%d" % i, (lambda ql=ql, recs=recs, ed=ed, sf=sf: props_dns.roundtrip_obligation(prog, en, structs, (ql, recs), ed, sf)),
+                                 "DNSPkt::serialise then PktParser::get_dns on a message with question labels %s and records (section, owner labels, rdata length) %s - equal label tags share their symbolic octets (forcing compression), different tags are independent symbolic octets (both equal and unequal are explored); %s EDNS; ids, TTLs, types, classes, rcode (12 bit with EDNS) symbolic%s" % (ql, recs, "with" if ed else "without", ", all header flags symbolic" if sf else ""),
+                                 "decode(encode(m)) = m field by field; independent RFC 1035 reference decoder: every compression pointer targets an earlier offset below 16384 and every name expands to the original; no panic"))
+        obligations.extend(run_jobs(jobs))
         return obligations
     if pid in ("C15", "C08", "C03"):
         from mirsym import props_lifted, enums as _en
